@@ -259,7 +259,14 @@ class ReducedDensityMatrixPropagator(MatrixData, Saveable):
         """
         
         if Nref > 1:
+            # the refinement is requested for this call only; the setting
+            # of the propagator is restored afterwards
+            Nref_saved = self.Nref
             self.setDtRefinement(Nref)
+            try:
+                return self.propagate(rhoi, method=method, mdata=mdata)
+            finally:
+                self.setDtRefinement(Nref_saved)
         
         #
         # Testing if the object submitted is density matrix
